@@ -1446,19 +1446,28 @@ _add("C09", "partial", [
     "repaired crate (9343bad) reports the same index; the untyped theorem pins it",
 ])
 _add("C11", "partial", [
-    "no theorem states the converse of c11_eof_at_end: an Eof-classified error implies that the input is a proper prefix of an accepted "
-    "text (a model answering Eof on a dead input would satisfy every C11 theorem); it is evaluated by the oracles (Spec.Pos verdict in "
-    "judgePos / specHistory) on every generated case",
-    "no upper bound theorem for faults inside a string literal on byte sources (InvalidUnicodeCodePoint is reported at the closing quote: "
-    "'between the first offending byte and the end of that literal' is checked by the oracle's literalEnd only)",
     "the tie from the machine's byte index to the readers' line/column bookkeeping (c11_reader_linecol, c11_slice_linecol) is by "
     "correspondence (ops lc3 / lcs): the machine itself does not run Model.LineCol",
+    "c11_eof_viable (an Eof-classified error means: a proper prefix of an ACCEPTED input) carries the same two qualifications as "
+    "c11_earliest: the state predicate SideOK for Value (necessary: c11_eof_sideOK_needed, '\"\\xff' from a slice is Eof and dead; "
+    "at grammar level, c11_eof_viable_grammar / c11_eof_proper_prefix, nothing is assumed), and an input that ends inside the four "
+    "bytes after \\u is Eof whatever those bytes are (the crate and C12's statement call this truncation): the viable prefix then "
+    "ends right after \\u (k <= 3)",
+    "c11_string_fault_bounds: the upper bound is against the independent lenient scan Spec.Pos.literalEnd; one forced exception - "
+    "a quote (or a backslash before one) among the four bytes after \\u is taken as a digit by decode_four_hex_digits, so InvalidEscape "
+    "at the group's fourth byte can lie past the lenient end of the literal (then the \\u itself lies within it: second alternative "
+    "of the theorem, the oracle's hexEnd)",
 ])
 _add("C12", "partial", [
-    "typed items: no analogue of c12_values ('yields exactly those values in order with exact offsets'): per case by op tstream (value = "
-    "deTypedTop of its span)",
-    "'Eof whenever the rest is a proper prefix of a value, Syntax otherwise': only the Eof direction is a theorem (C10's stream-prefix "
-    "theorems); 'Syntax otherwise' is evaluated by the grammar oracle specHistory",
+    "typed items: c12_typed_values characterises an item by the item deserializer's own verdict in place (ItemOK: deTyped started on "
+    "the item's first byte with the rest of the stream behind it returns the value and leaves exactly that rest) - there is no grammar "
+    "of typed texts; the theorem adds the iterator's frame (whitespace, offsets, peek_end_of_value, no failure, the end). Wholesale "
+    "instances come from the C16 / C04 text leg (Agree1; c12_typed_values_agree) and need NON-EMPTY whitespace between items; "
+    "touching items ([1][2]) are covered by the general theorem only",
+    "'Eof whenever the rest is a proper prefix of a value, Syntax otherwise' for Value / IgnoredAny items: Eof direction = C10's "
+    "stream-prefix theorems (under side conditions), converse = c12_eof_proper_prefix / c12_syntax_otherwise (grammar level, no "
+    "hypothesis on the state) with the \\u qualification the statement itself makes; typed items: Eof-classified errors sit at the end "
+    "of the input (c12_typed_eof_at_end), no 'proper prefix of a typed text' theorem in the converse direction",
     "'an undelimited bare scalar yields an error' and 'byte_offset() of an error item is the first byte of that value' hold by the model's "
     "definition of next(); they are tied to the crate by correspondence only",
     "typed streams: every item is read at depth 0 by construction of Model.StreamTyped (budget restoration for typed items is assumed "
@@ -1474,10 +1483,6 @@ _add("C13", "partial", [
     "the error KIND is not part of the models' Io outcome ('carrying that error's kind' is checked by the harness: IO:<kind>); "
     "c13_typed_fault alone does not bound the error index - that follows from c13_typed_fault_eq + typed_within_input",
 ])
-_add("C14", "partial", [
-    "no theorem says that every string / char / key of a TYPED result (TVal) is valid UTF-8 (c14_utf8 is about the Value machine); the one "
-    "real defect of this clause (bool-key panic, fixed afff6b0) was on the typed path - covered by ops tt / c16 with the UTF-8 verdict",
-])
 _add("C16", "partial", [
     "depth: c16_text_agrees_* assume depth <= 127; beyond it from_value succeeds and the text path fails (open finding C16-text-depth-limit, "
     "generated by op c16x)",
@@ -1489,3 +1494,40 @@ _add("C20", "partial", [
     "the serializer model's definition on Num.lit + c03_display_number; no text -> value -> text theorem is listed (c04_value_ap is value "
     "-> text -> value)",
 ])
+
+# ---- gaps of the honesty pass closed by theorems (branch wip-c11b): C11 converse of eof_at_end, grammar reading without SideOK,
+#      string-fault upper bound; C14 typed UTF-8; C12 'Syntax otherwise' and typed values.
+PROPS["C11"]["level_text"] += (
+    " Eof-classified errors, conversely (Proofs/EofViable.lean): c11_eof_viable / c11_eof_viable_plain / c11_eof_viable_ignored - the input (minus the k <= 3 "
+    "unchecked bytes of a \\u group it ends in) has a NON-EMPTY continuation that is accepted, under SideOK for Value and "
+    "unconditionally for skipped content; c11_eof_viable_grammar / c11_eof_proper_prefix - for every target, unconditionally, it is a "
+    "proper prefix of an RFC 8259 JSON text. The property's grammar reading without any state predicate (Proofs/EarliestSim.lean: "
+    "the scanner of skipped content, which accepts exactly the grammar, consumes whatever any run consumes and fails where a run fails "
+    "with a grammar code; Proofs/EarliestGrammar.lean): for every target, a grammar error code (sideCode c = false: not "
+    "NumberOutOfRange, RecursionLimitExceeded, InvalidUnicodeCodePoint, LoneLeadingSurrogateInHexEscape, UnexpectedEndOfHexEscape) "
+    "reported at byte count idx means that no continuation of the first idx bytes is a JSON text (c11_dead_grammar) and the first "
+    "idx - 1 bytes do continue to one (c11_earliest_value_grammar; k = 4 inside a \\u group). Faults inside a string literal "
+    "(c11_string_fault_bounds, Proofs/EarliestStrBound.lean): the codes ControlCharacterWhileParsingString, InvalidEscape, "
+    "InvalidUnicodeCodePoint, LoneLeadingSurrogateInHexEscape, UnexpectedEndOfHexEscape are raised only from string states; the first "
+    "idx bytes are dead, and idx is not past the end of the literal as the independent lenient scan Spec.Pos.literalEnd finds it from "
+    "the literal's opening quote (InvalidUnicodeCodePoint exactly at the closing quote), for every source.")
+PROPS["C11"]["technique"] += ("; step-by-step simulation of every run by the scanner of skipped content (grammar-level corollaries "
+    "without state predicates); an invariant tying the machine's string sub-states to a lenient closing-quote scan")
+PROPS["C14"]["lean_targets"] = PROPS["C14"]["lean_targets"][:-1] + ["SJ.Props.TypedUtf8"] + PROPS["C14"]["lean_targets"][-1:]
+PROPS["C14"]["level_text"] += (
+    " Typed targets, UTF-8 (Props/TypedUtf8.lean): c14_typed_utf8 - every str (String / &str targets, string keys, strings and keys of a "
+    "nested Value) inside a value returned by Model.Typed.deTypedTop is valid UTF-8 and every char (char targets and keys) a Unicode "
+    "scalar value (TVal.utf8OK), for every schema, configuration and fault mode: on byte sources unconditionally (a direct state "
+    "invariant of the machine, Proofs/TypedUtf8Mach.lean: every value and key stored in a state is valid, preserved by every step from "
+    "any start state incl. parse_str's and the padding frames; then by the structure of deTyped, Proofs/TypedUtf8.lean), on &str input "
+    "given that it is valid UTF-8 (through c09_typed_str_slice). Variant / field names do not occur in a typed result (indices into "
+    "static lists); bytes targets are deliberately unconstrained.")
+PROPS["C12"]["level_text"] += (
+    " 'Syntax otherwise' (Props/C12.lean over Proofs/StreamSyntax.lean): c12_eof_proper_prefix - a Value / IgnoredAny item that is an "
+    "Eof-classified error: the rest of the input at that item (minus the k <= 3 bytes of a cut-off \\u group) is a proper prefix of a "
+    "value at grammar level; c12_syntax_otherwise - if no non-empty continuation of the rest derives a value (and it does not end "
+    "inside a \\u group) the item's error is Syntax-classified. Typed items (Props/StreamTyped.lean over "
+    "Proofs/StreamTypedValues.lean): c12_typed_values / c12_typed_expected_at / c12_typed_expected_end - a stream w0 x1 w1 .. xn wn "
+    "whose items are accepted in place (ItemOK) with whitespace between and the delimiter rule yields exactly v1 .. vn with "
+    "byte_offset() just past each item, then None at the end of the input for every further call; c12_typed_values_agree - the same "
+    "for item texts of the C16 / C04 text leg (Agree1) separated by non-empty whitespace.")
